@@ -50,6 +50,8 @@ type scenario struct {
 	Tasks    []taskDef `json:"tasks"`
 	Steps    []step    `json:"steps"`
 	PackCnt  int       `json:"packer_max_count"`
+	PackMs   int       `json:"packer_timer_ms,omitempty"`
+	PackKB   int       `json:"packer_max_msg_kb,omitempty"`
 	SharedDS bool      `json:"all_shards_on_one_downstream_channel"`
 }
 
